@@ -15,6 +15,12 @@
 (*   the chunks are a sequence: however the iterator is advanced (next,    *)
 (*     nth(j), skip(j), step_by(s)) the j-th of the remaining chunks is    *)
 (*     chunk k+j, and reaching it consumes j+1 chunks (all, if fewer)      *)
+(*   likewise count() = the chunks still to come, last() = chunk Count-1,  *)
+(*     fold / for_each / find / position / any / all walk the same         *)
+(*     sequence; a clone taken after k chunks continues with chunk k;      *)
+(*     bin, hop, frames are public fields: after an assignment the         *)
+(*     windower is a fresh windower over the remaining slice with the      *)
+(*     current field values                                                *)
 (*   the window FUNCTIONS themselves: Hann(p) in [0, 1] with the special   *)
 (*     values at p = k/24 (Hann(0) = Hann(1) = 0, Hann(1/2) = 1);          *)
 (*     Rect(p) = 1 for EVERY p, also outside [0, 1]                        *)
@@ -46,6 +52,31 @@ NthAfter(L, b, h, k, j) == Min2(k + j + 1, Count(L, b, h))
 StepGot(L, b, h, k, s, m) == Cardinality({ i \in 0..(m - 1) : HasChunk(L, b, h, k + i * s) })
 StepAfter(L, b, h, k, s, m) == IF StepGot(L, b, h, k, s, m) = m THEN k + (m - 1) * s + 1 ELSE Count(L, b, h)
 
+\* The windower's fields bin, hop and frames are PUBLIC: a caller may assign them between calls, and every
+\* call reads them afresh ("the size of each chunk to be yielded", "the step size over frames", "the
+\* beginning of the remaining slice").  Layer-1 state of one windower value:
+\*   v = [base, len, b, h, k]   "a Windower over frames base+1 .. base+len of the caller's array, bin b,
+\*                               hop h, that has yielded k chunks"
+\* An assignment re-bases it: the frames the k chunks consumed are gone, what is left is a fresh windower
+\* over the remaining slice with the new field value.  A clone is the same value (v copied).
+VNew(L, b, h) == [base |-> 0, len |-> L, b |-> b, h |-> h, k |-> 0]
+VConsumed(v) == Min2(v.k * v.h, v.len)                    \* frames dropped from the front so far
+VRebase(v) == [v EXCEPT !.base = v.base + VConsumed(v), !.len = v.len - VConsumed(v), !.k = 0]
+VSetBin(v, nb) == [VRebase(v) EXCEPT !.b = nb]
+VSetHop(v, nh) == [VRebase(v) EXCEPT !.h = nh]
+VSetFrames(v, o, n) == [v EXCEPT !.base = o, !.len = n, !.k = 0]   \* frames := array[o+1 .. o+n]
+VCount(v) == Count(v.len, v.b, v.h)
+VRemaining(v) == VCount(v) - v.k
+VNthHas(v, j) == NthHas(v.len, v.b, v.h, v.k, j)
+VNthAfter(v, j) == [v EXCEPT !.k = NthAfter(v.len, v.b, v.h, v.k, j)]
+VStepGot(v, s, m) == StepGot(v.len, v.b, v.h, v.k, s, m)
+VStepAfter(v, s, m) == [v EXCEPT !.k = StepAfter(v.len, v.b, v.h, v.k, s, m)]
+VChunkStart(v, idx) == v.base + ChunkOffset(idx, v.h)     \* 0-based position of chunk idx in the caller's array
+\* the provided Iterator methods that consume the windower: count() = the chunks still to come, last() = the
+\* final chunk of the schedule (chunk Count-1, NOT "the last b frames"), fold / for_each = every remaining chunk
+VLastHas(v) == VRemaining(v) > 0
+VLastIdx(v) == VCount(v) - 1
+
 ---------------------------------------------------------------------------
 (* layer 2: the Windower as coded: w = [off, rem] *)
 WNew(L) == [off |-> 0, rem |-> L]
@@ -64,6 +95,13 @@ WNthR(w, b, h, j, c) ==
   ELSE IF j = 0 THEN [some |-> TRUE, at |-> r.at, w |-> r.w, cnt |-> c + 1]
   ELSE WNthR(r.w, b, h, j - 1, c + 1)
 WNth(w, b, h, j) == WNthR(w, b, h, j, 0)
+\* count() / last() as the Iterator trait defines them: next() until None; cnt = how many, at = offset of the last one
+RECURSIVE WDrainR(_, _, _, _, _)
+WDrainR(w, b, h, c, at) ==
+  LET r == WNext(w, b, h) IN
+  IF ~r.some THEN [cnt |-> c, some |-> c > 0, at |-> at, w |-> r.w]
+  ELSE WDrainR(r.w, b, h, c + 1, r.at)
+WDrain(w, b, h) == WDrainR(w, b, h, 0, 0)
 \* an exact size hint on that representation
 WHint(w, b, h) == IF b <= w.rem THEN ((w.rem - b) \div h) + 1 ELSE 0
 \* size_hint as coded at the pinned commit (DESIGN section 7 #6): `bin < len`, no `+ 1`
